@@ -64,15 +64,25 @@ def run(ctx, rep):
                "%d state write event(s), none followed by an Err exit" % len(s.events) if not s.violations else
                "state is written by %s and then %s" % (s.violations[0][2], s.violations[0][3]), loc=f.loc())
     # every state write in classic pull is behind the MAC success edge
-    atoms = cm.mac_prim_atoms(pull)
+    # on the view of pull with its private helpers and closures folded in (the MAC test may be written
+    # `ensure(tag_matches, || err)?`); the xor helper and the public rekey stay calls
+    from ..inline import inline as _inl
+
+    def _xor_like(g):
+        if g.argc != 2 or "&mut [u8]" not in g.locals[1]["t"]:
+            return False
+        return any(s_["rv"]["k"] == "binop" and s_["rv"]["op"] == "BitXor" for u in prog.unit(g) for _, _, s_ in u.assigns())
+    pv = _inl(prog, pull, keep=(_xor_like,))
+    atoms = cm.mac_prim_atoms(pv)
     if len(atoms) != 1:
         rep.violation("ANCHOR", "pull MAC comparison", "expected one MAC comparison in pull, found %d" % len(atoms), loc=pull.loc())
         return
-    good, bad = decisive_edges(pull, atoms[0], CT_T, CT_F)
-    s = cl.summary(pull, 1)
+    good, bad = decisive_edges(pv, atoms[0], CT_T, CT_F)
+    pstate = [p for p in cm.params_of(pv) if pv.locals[p]["t"].endswith("State") and "mut" in pv.locals[p]["t"]]
+    s = Clean(prog).summary(pv, pstate[0] if pstate else 1) if getattr(pv, "inlined", None) else cl.summary(pull, 1)
     for (eb, kind, atom, text) in s.events:
-        ok = any(pull.edge_dominates(e, eb) for e in good)
-        rep.ob("AFTER-MAC", "pull|%s" % text.split(" at ")[0], ok, "%s %s the MAC success edge" % (text, "is dominated by" if ok else "is NOT dominated by"), loc=pull.loc(eb))
+        ok = any(pv.edge_dominates(e, eb) for e in good)
+        rep.ob("AFTER-MAC", "pull|%s" % text.split(" at ")[0], ok, "%s %s the MAC success edge" % (text, "is dominated by" if ok else "is NOT dominated by"), loc=pv.loc(eb))
     # From here on the rules run on inlined views: private helpers (state_counter/state_inonce/
     # counter reset/rekey predicates/pad helpers, whatever they are called today) are folded into
     # their callers, so the rules do not depend on where the module draws its private boundaries.
